@@ -24,6 +24,8 @@ FAILED = "failed"           # refuted with a witness that replays on the real co
 UNDECIDED = "undecided"     # solver unknown / witness does not replay
 BOUNDED = "bounded_ok"      # held on everything in a stated bound; never counted as proved
 ERROR = "error"             # checker error inside this obligation
+SKIPPED = "skipped"         # not attempted: an earlier obligation of the same contract instance
+                            # already failed with a native witness (never on a passing run)
 
 
 class Obligation:
@@ -170,6 +172,7 @@ class Report:
         violations = 0
         known_hits = []
         undecided = []
+        skipped = []
         os.makedirs(os.path.join(VERIF, "replays"), exist_ok=True)
 
         have = {o.id for o in self.obls}
@@ -188,6 +191,9 @@ class Report:
         led_set = set(ledger.get("discharged", []) + ledger.get("bounded", [])) if ledger else set()
         for o in self.obls:
             if o.status in (DISCHARGED, BOUNDED):
+                continue
+            if o.status == SKIPPED:
+                skipped.append(o)
                 continue
             if o.status == ERROR:
                 self.error("obligation %s: %s" % (o.id, o.detail[:300]))
@@ -243,6 +249,7 @@ class Report:
             "known_failing_count": len(known_hits),
             "known_failing": [{"obligation": o.id, "finding": k.get("id")} for k, o in known_hits],
             "undecided": [o.id for o in undecided],
+            "skipped_after_failure": [o.id for o in skipped],
             "by_backend": backends,
             "solver_s": round(sum(o.time_s for o in self.obls), 3),
             "checker_cmd": self.backend_cmd or ("./check %s --tier %s" % (self.prop, self.tier)),
@@ -284,6 +291,8 @@ class Report:
               "violations=%d errors=%d wall=%.1fs"
               % (self.prop, self.tier, n_proof_obl, n_dis, n_bnd, len(known_hits),
                  len(undecided), violations, len(self.errors), wall))
+        if skipped and not violations and not known_hits:
+            self.errors.append("obligations skipped although nothing failed")
         if violations:
             return 1
         if self.errors:
